@@ -14,7 +14,8 @@ PROPERTY = {
               '(loop invariant over a recursive filter spec), they are formatted without prompts and without wants, and -- iff the part has a '
               'want -- followed by "# doctest want:" and every want line prefixed "# " (indent = prefix + replace of newlines, proved)',
               'DoctestPart.format_part without prompts: the joined source lines'],
-        'B': ['the real function on small generated doctests against an executable statement of the same clauses (bounded; guards the '
+        'B': ['generated modules through the real parser: the dumped text compiles, has exactly one test function per enabled doctest, and every dumped function writes exactly what its doctest writes as a plain program (bounded/c19_dump.py, end to end)',
+              'the real function on small generated doctests against an executable statement of the same clauses (bounded; guards the '
               'proof against refactorings the invariants do not survive, e.g. removal while iterating)'],
         'T': ['undefined_names (pyflakes)', 'DocTest.node text'],
         'N/A': ['"syntactically valid Python": needs the grammar (re-indenting a body that contains a multi-line string changes the string); '
